@@ -19,6 +19,14 @@ file-by-file)."""
 from pyvc.kinds import *
 from pyvc.contract import Contract, Loop, Lemma
 
+LEVEL = 'other'
+EXPLANATION = ('C12 quantifies over worker-process schedules, which contract-based deductive verification cannot decide. What IS decided, for '
+               'every input and every behaviour of the readers and writers underneath: each of the three per-file converters handed to the batch '
+               'drivers returns a LASWriteResult keyed by its own input path and lets no Exception escape (exception-effect contracts discharged '
+               'on the real bodies), and the sequential loop and the worker pool give every file the same call (argument tuples read from the '
+               'source and proved equal). Not decided by contracts: that a process pool returns each task\'s own result whatever the schedule '
+               '(trusted library semantics) and that the output files are byte-identical across sequential / jobs=N / file-by-file runs; both '
+               'are exercised by the bounded stand-in only (directories with damaged files, 1, 2, 4 and 16 workers).')
 WL = 'src/TotalDepth/LAS/core/WriteLAS.py'
 NO_RAISE = ['os.path.getsize', 'time.perf_counter', 'bin_file_type.binary_file_type_from_path', 'bin_file_type.is_lis_file_type',
             'os.path.isfile']
